@@ -470,7 +470,7 @@ func c04CopyDst(r *Run, fn *ssa.Function, key string, c ssa.CallInstruction, res
 		return
 	}
 	for _, st := range sts {
-		ld, isLd := st.Val.(*ssa.UnOp)
+		ld, isLd := c04Unconverted(st.Val).(*ssa.UnOp) // the array type may be named on one side only ([32]byte ↔ SHA256Hash)
 		if !isLd || ld.X != ssa.Value(L) {
 			fail(fmt.Sprintf("%s <- %s at %s is not the local's value", r.D.D(st.Addr), r.D.D(st.Val), r.Where(st)))
 			return
@@ -680,6 +680,7 @@ func c04JSONRules(r *Run) {
 			return "?"
 		}
 		r.ExpectArg(c, key+":unmarshal.into", 1, "new:"+typ+"#*")
+		c04KeepsDecoded(r, fn, key+":unmarshal.kept", c, 1)
 		return "*" + r.D.D(CallArgs(c)[1])
 	}
 	// field `field` of the returned struct is what that tls.Unmarshal decoded: through a local that is
@@ -689,13 +690,32 @@ func c04JSONRules(r *Run) {
 			r.Fail(key+"."+field, r.Where(ret), "undecided: no unique tls.Unmarshal whose result could fill "+field)
 			return
 		}
-		r.ExpectDecodedField(fn, key+":unmarshal.into", key+"."+field, ret.(*ssa.Return).Results[0], field, c, 1, typ)
+		c04DecodedField(r, fn, key+":unmarshal.into", key+"."+field, ret.(*ssa.Return).Results[0], field, c, 1, typ)
+	}
+	// "converts without loss": each listed member of the message the success return hands out is set
+	// (at least once, and only ever) to the named member of the received message; a member that is
+	// never set comes out as its zero value whatever was received
+	carried := func(fn *ssa.Function, key string, ret ssa.Instruction, want map[string]string) {
+		base := ret.(*ssa.Return).Results[0]
+		a := baseAlloc(base)
+		if a == nil {
+			r.ExpectFields(fn, key, base, want) // reports "undecided: not built in a local allocation"
+			return
+		}
+		for _, f := range keysOf(want) {
+			addr := "&(" + r.D.allocName(a) + "." + f + ")"
+			if len(r.StoresTo(fn, addr)) == 0 {
+				r.Fail(key+"."+f, r.Where(ret), fmt.Sprintf("member %s of the %s that %s returns is never set (no store to %s; expected %s): whatever the received message carries there is lost, the converted message always has the zero value", f, TypeName(a.Type().(*types.Pointer).Elem()), FuncName(fn), addr, want[f]))
+				continue
+			}
+			r.ExpectStores(fn, key+"."+f, addr, want[f], 1)
+		}
 	}
 	if fn := r.Fn("(*ct.AddChainResponse).ToSignedCertificateTimestamp"); fn != nil {
 		k := "ToSCT"
 		c := decoder(fn, k, "p0.Signature")
 		for _, ret := range successReturns(fn) {
-			r.ExpectFields(fn, k, ret.(*ssa.Return).Results[0], map[string]string{
+			carried(fn, k, ret, map[string]string{
 				"SCTVersion": "p0.SCTVersion", "Timestamp": "p0.Timestamp",
 				"Extensions": dec + "p0.Extensions)#0",
 			})
@@ -717,7 +737,7 @@ func c04JSONRules(r *Run) {
 		k := "ToSTH"
 		c := decoder(fn, k, "p0.TreeHeadSignature")
 		for _, ret := range successReturns(fn) {
-			r.ExpectFields(fn, k, ret.(*ssa.Return).Results[0], map[string]string{
+			carried(fn, k, ret, map[string]string{
 				"TreeSize": "p0.TreeSize", "Timestamp": "p0.Timestamp",
 			})
 			decodedField(fn, k, ret, "TreeHeadSignature", "ct.DigitallySigned", c)
